@@ -417,7 +417,7 @@ type family struct {
 var familyDefs = []family{
 	{"F1-revert", []int{0, 1, 2}, []string{"add1(X)", "nonce1(X)", "codeB(X)", "st(X,0,2)", "st(X,0,0)", "suicide(X)", "create(X)", "logrefund", "snap", "revN", "revO"}},
 	{"F2a-root", []int{0, 1, 2}, []string{"add1(X)", "setbal0(X)", "nonce1(X)", "nonce0(X)", "codeA(X)", "st(X,0,1)", "st(X,0,0)", "st(X,1,2)", "fin(true)", "fin(false)", "commit(false)"}},
-	{"F2b-persist", []int{0, 2}, []string{"add1(X)", "setbal0(X)", "codeB(X)", "st(X,0,2)", "st(X,0,0)", "commit(true)", "commit(false)", "copy", "reopen-disk(true)", "reopen-cached(false)", "readall"}},
+	{"F2b-persist", []int{0, 2}, []string{"add1(X)", "setbal0(X)", "codeB(X)", "st(X,0,2)", "st(X,0,0)", "fin(true)", "commit(true)", "commit(false)", "copy", "reopen-disk(true)", "reopen-cached(false)", "readall"}},
 	{"F3-destruct", []int{0, 1, 2}, []string{"suicide(X)", "create(X)", "add0(X)", "add1(X)", "sub1(X)", "st(X,0,1)", "snap", "revN", "fin(true)", "fin(false)"}},
 	{"F4-two", []int{0}, []string{"add1(A1)", "add1(F)", "st(A1,1,2)", "st(F,0,2)", "suicide(A1)", "suicide(F)", "snap", "revN", "fin(true)", "reopen-disk(true)"}},
 }
